@@ -132,6 +132,21 @@ def numEntriesBytes (n : Nat) : Nat := bytesForBits (bitLen n)
 def suitable (s : Image) : Bool :=
   s.isOrdered && s.entries.length != 0 && !(s.entries.length == 1 && !s.estMode)
 
+/-- strictly ascending, all above `p` (hash value 0 is never retained) -/
+def ascFrom : Nat → List Nat → Prop
+  | _, [] => True
+  | p, e :: t => p < e ∧ ascFrom e t
+
+instance : ∀ (p : Nat) (l : List Nat), Decidable (ascFrom p l)
+  | _, [] => isTrue trivial
+  | p, e :: t => by unfold ascFrom; exact @instDecidableAnd _ _ _ (instDecidableAscFrom e t)
+
+/-- image states the compressed writer is used for: suitable, hashes nonzero, strictly ascending, below 2^63 -/
+def WFv4 (s : Image) : Prop :=
+  WF s ∧ suitable s = true ∧ ascFrom 0 s.entries ∧ ∀ e ∈ s.entries, e < 2 ^ 63
+
+instance (s : Image) : Decidable (WFv4 s) := by unfold WFv4; infer_instance
+
 def flagsByteV4 (c : Consts) : Nat := 2 ^ c.fCompact ||| 2 ^ c.fReadOnly ||| 2 ^ c.fOrdered
 
 def encodeV4 (c : Consts) (s : Image) : Bytes :=
@@ -150,14 +165,14 @@ def serializedSizeCompressed (s : Image) : Nat := if suitable s then serializedS
 
 /-- body of a version-4 image after the first three bytes.  Mirrors the parser (bytes / wrap path): the seed
 hash is always checked, the result is never empty and always ordered.  Stricter than the code on two
-corrupt-only fields: more than 4 count bytes and an entry width above 63 are rejected (the code shifts an
-`int` by ≥ 32 bits, resp. treats 64 as "uncompressed"). -/
+corrupt-only fields: more than 4 count bytes and an entry width outside 1..63 are rejected (the code shifts an
+`int` by ≥ 32 bits, resp. treats 64 as "uncompressed" and 0 as "any number of zero entries from no bytes"). -/
 def decodeV4 (expSeedHash pre : Nat) : Reader Image :=
   Reader.bind u8 fun eb =>
   Reader.bind u8 fun neb =>
   Reader.bind u8 fun _fl =>
   Reader.bind u16 fun sh =>
-  Reader.bind (guard (sh == expSeedHash && decide (neb ≤ 4) && decide (eb ≤ 63))) fun _ =>
+  Reader.bind (guard (sh == expSeedHash && decide (neb ≤ 4) && decide (1 ≤ eb ∧ eb ≤ 63))) fun _ =>
   Reader.bind (if pre > 1 then u64 else Reader.pure maxTheta) fun theta =>
   Reader.bind (leNat neb) fun n =>
   Reader.bind (bytesN (bytesForBits (eb * n))) fun bs =>
